@@ -604,6 +604,15 @@ func RunCrash(c *core.Ctx) {
 		core.Tick()
 		st := readAck(ackPath)
 		killed := waitErr != nil
+		if killed && cmd.ProcessState != nil && cmd.ProcessState.ExitCode() == 2 {
+			lb, _ := os.ReadFile(filepath.Join(base, "child.log"))
+			tail := string(lb)
+			if len(tail) > 3000 {
+				tail = tail[:3000]
+			}
+			c.Violate("crash:child-panic", "the child process died by itself (Go runtime exit status 2) while replaying the history:\n%s", tail)
+			return
+		}
 		if killed && cmd.ProcessState != nil && cmd.ProcessState.ExitCode() == 3 {
 			lb, _ := os.ReadFile(filepath.Join(base, "child.log"))
 			c.Violate("crash:child-error", "the child failed on its own: %s", string(lb))
